@@ -118,6 +118,13 @@ def suite_fonts(ctx, res, n):
         if "err" not in out:
             res.stat("build:ok:shared-radial")
             check_otsvg_font(ctx, res, case, out)
+    for _ in range(max(2, n // 10)):
+        case = fontgen.make_shared_gradient_case(ctx.rng.getrandbits(32), ctx.rng.choice(["picosvg", "picosvgz"]))
+        out = fontgen.build(case)
+        res.count(key=("font", case["id"]), nontrivial=True)
+        if "err" not in out:
+            res.stat("build:ok:shared-gradient")
+            check_otsvg_font(ctx, res, case, out)
     for k, case in enumerate(fontgen.gen_cases(ctx.rng, n, formats=FORMATS)):
         if case["fmt"].startswith("picosvg") and case["config"].get("transform") == "matrix(1 0 0.25 1 0 0)":
             # known finding (corpus/C02/known.json): radial gradients under a non-similarity user transform; random
